@@ -21,7 +21,7 @@ KNOWN_OPS = {
     ('cdna3', 'VOP2', 59): 'v_fmac_f32 is computed as float32(src0*src1) + dst with two roundings; the CDNA3 manual prescribes a fused multiply-add',
     ('cdna3', 'VOP3A', 459): 'v_fma_f32 is computed as float32(src0*src1) + src2 with two roundings; the manual prescribes a fused multiply-add',
 }
-HI64_TEXT = ('vcc_hi as the 32-bit shift amount of v_lshlrev_b64 / v_lshrrev_b64 / v_ashrrev_i64 is read as the whole 64-bit VCC '
+HI64_TEXT = ('vcc_hi as the 32-bit shift amount of v_lshlrev_b64 / v_lshrrev_b64 / v_ashrrev_i64 is read as the whole 64-bit VCC (exec_hi: panic) '
              '(the decode table marks SRC0 of these opcodes 64 bits wide; the manual: S0.u[5:0])')
 UNSUP_TEXT = 'vccz/execz as source operand panic ("Register type not supported")'
 
@@ -37,14 +37,14 @@ def classify(c):
     """Known-finding class of a case on which the Go ALU and the manual differ, or None."""
     key = (c['alu'], c['fmt'], c['op'])
     srcs = [c['src0'], c['src1']] + ([c['dst']] if c['fmt'] == 'SOPK' and c['op'] in (2, 3, 15) else [])
+    if c['fmt'] == 'VOP3A' and c['op'] in (655, 656, 657) and c['src0'] in (107, 127):
+        return ('operand', 'hi-half-wide-slot'), HI64_TEXT
     if c.get('panic'):
         if any(s in (251, 252) for s in srcs):
             return ('operand', 'unsupported'), UNSUP_TEXT
         return None
     if key in KNOWN_OPS:
         return key, KNOWN_OPS[key]
-    if c['fmt'] == 'VOP3A' and c['op'] in (655, 656, 657) and c['src0'] == 107:
-        return ('operand', 'hi-half-wide-slot'), HI64_TEXT
     return None
 
 
